@@ -77,6 +77,21 @@ theorem Reach.marker_of_closed {g : G} (R : Reach g) (hq : cnt Frame.active g = 
   simp only [↓reduceIte] at h1
   omega
 
+/-- order in a list implies order in each of its prefixes -/
+theorem orderedIn_prefix (a b : Nat) (l m : List Nat) (h : orderedIn a b (l ++ m) = true) :
+    orderedIn a b l = true := by
+  induction l with
+  | nil => simp [orderedIn, indexOf?]
+  | cons y l ih =>
+    simp only [orderedIn, List.cons_append, indexOf?] at h ih ⊢
+    by_cases ha : (a == y) = true <;> by_cases hb : (b == y) = true <;>
+      simp only [ha, hb, if_true, if_false, Bool.false_eq_true] at h ⊢
+    · exact h
+    · cases h4 : indexOf? l b <;> simp
+    · cases h1 : indexOf? (l ++ m) a <;> simp [h1] at h
+    · cases h1 : indexOf? (l ++ m) a <;> cases h2 : indexOf? (l ++ m) b <;> cases h3 : indexOf? l a <;>
+        cases h4 : indexOf? l b <;> simp_all <;> omega
+
 /-- **The oracle holds of the model.** For every reachable end state — no op in flight and the
 receiver ran until it blocked — no clause of `Obs.violations` is violated. -/
 theorem violations_nil {g : G} (R : Reach g) (he : endState g = true) : (obsOf g).violations = [] := by
@@ -84,13 +99,30 @@ theorem violations_nil {g : G} (R : Reach g) (he : endState g = true) : (obsOf g
   have Q := R.q
   simp only [endState, quiescent, Bool.and_eq_true, beq_iff_eq, List.isEmpty_iff, Bool.or_eq_true,
     Bool.not_eq_true'] at he
-  obtain ⟨⟨hq, hqueue⟩, hdone⟩ := he
+  obtain ⟨⟨⟨hq, hqueue⟩, htaken⟩, hdone⟩ := he
+  -- started handlers are among the dequeued messages …
+  have hsub : ∀ i, g.sh.handled.count i ≤ g.sh.deqd.count (.msg i) := by
+    intro i
+    have := congrArg (List.count i) Q.handled_eq
+    simp only [List.count_append, count_msgIds] at this
+    omega
+  -- … and are all of them unless the loop was left for another reason than the marker
+  have hEq : g.sh.stoppedByOther = false → g.sh.handled = msgIds g.sh.deqd := by
+    intro hso
+    have hd : g.sh.dropped = [] := by
+      cases hd : g.sh.dropped with
+      | nil => rfl
+      | cons x l => have := (Q.dropped_why (by simp [hd])).1; simp [hso] at this
+    have ht : g.sh.taken = none := by simpa using htaken
+    have := Q.handled_eq
+    rw [hd, ht] at this
+    simpa using this.symm
   have hcount : ∀ i, g.sh.handled.count i ≤ 1 := by
     intro i
     have h1 := (R.ids i).one
     have hc := congrArg (List.count (Item.msg i)) Q.conserve
     simp only [List.count_append] at hc
-    rw [Q.handled_eq, count_msgIds]
+    have := hsub i
     omega
   -- everything enqueued was dequeued, unless the receiver was stopped from outside
   have hall : g.sh.stoppedByOther = false → g.sh.flushed = [] := by
@@ -108,8 +140,10 @@ theorem violations_nil {g : G} (R : Reach g) (he : endState g = true) : (obsOf g
   have c2 : g.sh.handled.all (fun i => g.sh.rets.any (fun r => r.isOkSend && r.id == i)) = true := by
     rw [List.all_eq_true]
     intro i hi
-    have hd : 0 < (msgIds g.sh.deqd).count i := by rw [← Q.handled_eq]; exact List.count_pos_iff.mpr hi
-    rw [count_msgIds] at hd
+    have hd : 0 < g.sh.deqd.count (.msg i) := by
+      have := hsub i
+      have : 0 < g.sh.handled.count i := List.count_pos_iff.mpr hi
+      omega
     have henq : 0 < g.sh.enq.count (.msg i) := by
       have hc := congrArg (List.count (Item.msg i)) Q.conserve
       simp only [List.count_append] at hc
@@ -141,7 +175,7 @@ theorem violations_nil {g : G} (R : Reach g) (he : endState g = true) : (obsOf g
         simp only [List.count_append] at hc
         rw [hall hso, hqueue] at hc
         simp only [List.count_nil, Nat.add_zero] at hc
-        have : 0 < g.sh.handled.count r.id := by rw [Q.handled_eq, count_msgIds]; omega
+        have : 0 < g.sh.handled.count r.id := by rw [hEq hso, count_msgIds]; omega
         simpa using List.count_pos_iff.mp this
     · rfl
   have cOrd : g.sh.rets.all (fun r2 => !r2.isOkSend || r2.seenOk.all (fun m1 => orderedIn m1 r2.id g.sh.handled)) = true := by
@@ -168,10 +202,12 @@ theorem violations_nil {g : G} (R : Reach g) (he : endState g = true) : (obsOf g
       have h1 := (R.ids r2.id).one
       have hbef := hO.ord hpos (by omega)
       rw [Q.conserve, List.append_assoc] at hbef
-      rw [Q.handled_eq]
-      apply orderedIn_of_before m1 r2.id (hO.ne hpos) _ _ _ hbef
-      rw [← List.append_assoc, ← Q.conserve]
-      omega
+      have hord : orderedIn m1 r2.id (msgIds g.sh.deqd) = true := by
+        apply orderedIn_of_before m1 r2.id (hO.ne hpos) _ _ _ hbef
+        rw [← List.append_assoc, ← Q.conserve]
+        omega
+      rw [Q.handled_eq, List.append_assoc] at hord
+      exact orderedIn_prefix _ _ _ _ hord
   have c4 : g.sh.rets.all (fun r => !(r.isSend && r.late) || r.res == .sendErr) = true := by
     rw [List.all_eq_true]
     intro r hr
